@@ -2,7 +2,7 @@
    quoted there, with non-vacuity witnesses (`Example`s).  The long proofs are in
    ProofsTok.v (token machine) and ProofsWR.v (writer/reader machine, stamps). *)
 From Salsa Require Import Base.
-From Salsa.Cancel Require Import TokK Model.
+From Salsa.Cancel Require Import Model.
 From Salsa.Cancel Require Export ProofsTok ProofsWR.
 
 (* =====================================================================================
